@@ -44,6 +44,10 @@ def canon(o, depth=0):
     return repr(o)
 
 
+def dig(o):
+    return hashlib.sha1(repr(canon(o)).encode()).hexdigest()
+
+
 # ------------------------------------------------------------------ shared inputs
 def inputs():
     from opticomlib.typing import binary_sequence, electrical_signal, optical_signal, eye
@@ -169,14 +173,42 @@ def call(i, seed):
     return out
 
 
-def solo(i, seed):
-    """solo output digest of menu entry i under seed (computed from a pristine state, cached per worker)"""
+def fresh_solo_main(argv):
+    """entry point of the fresh-process oracle: `python -m mcx.props.c14b <i> <seed> [<seed> ...]` prints the digests of
+    menu entry i executed as the FIRST library call of a new interpreter (the state reached from the initial state)"""
+    import json, os, sys, warnings
+    repo = os.environ.get('MCX_REPO', '/repo')
+    if repo not in sys.path:
+        sys.path.insert(0, repo)
+    warnings.simplefilter('ignore')
+    i = int(argv[0])
+    out = {}
     C = setup()
-    key = (i, seed)
-    if key not in C['solo']:
-        gv_reset(**GV)
-        C['solo'][key] = canon(call(i, seed))
-    return C['solo'][key]
+    with np.errstate(all='ignore'):
+        for s in argv[1:]:
+            gv_reset(**GV)
+            out[s] = dig(call(i, int(s)))
+    print('SOLO ' + json.dumps(out))
+
+
+def fresh_table(n, seeds):
+    """digests of every menu entry from a fresh interpreter (one subprocess per entry, 16 at a time)"""
+    import json, os, subprocess, sys
+    from concurrent.futures import ThreadPoolExecutor
+    env = dict(os.environ, OMP_NUM_THREADS='1', OPENBLAS_NUM_THREADS='1', MPLBACKEND='Agg', PYTHONHASHSEED='0')
+
+    def one(i):
+        p = subprocess.run([sys.executable, '-m', 'mcx.props.c14b', str(i)] + [str(s) for s in seeds], capture_output=True, text=True,
+                           env=env, cwd=os.path.dirname(os.path.dirname(os.path.dirname(os.path.abspath(__file__)))), timeout=900)
+        for line in p.stdout.splitlines():
+            if line.startswith('SOLO '):
+                return {(i, int(k)): v for k, v in json.loads(line[5:]).items()}
+        return {(i, s): 'FRESH-PROCESS-FAILED:' + p.stderr[-300:] for s in seeds}
+    tab = {}
+    with ThreadPoolExecutor(16) as ex:
+        for d in ex.map(one, range(n)):
+            tab.update(d)
+    return tab
 
 
 def check_after(name, out, viol, where):
@@ -199,7 +231,7 @@ def check_after(name, out, viol, where):
 def seq_case(case):
     """case = (prefix of menu indices, seed, tail): run prefix calls, then every entry of `tail` (indices) once;
     every call's output must equal its solo output; earlier outputs must stay intact (no aliasing between outputs)."""
-    prefix, seed, tail = case
+    prefix, seed, tail, table = case
     C = setup()
     gv_reset(**GV)
     viol = []
@@ -208,20 +240,18 @@ def seq_case(case):
     ncalls = 0
     for pos, i in enumerate(list(prefix) + list(tail)):
         name = C['menu'][i][0]
-        want = solo(i, seed)
-        gv_reset(**GV) if False else None
+        want = table[(i, seed)]
         out = call(i, seed)
         ncalls += 1
-        got = canon(out)
+        got = dig(out)
         where = f'seq={[C["menu"][j][0] for j in prefix]} then {name} (seed {seed})'
         if got != want:
-            kind = 'order-dependence' if pos > 0 else 'nondeterminism'
-            viol.append((f'{kind}:{name}', f'{where}: output differs from the solo output of the same call'))
+            viol.append((f'order-dependence:{name}', f'{where}: output differs from the output of the same call made first in a fresh interpreter'))
         check_after(name, out, viol, where)
         for (j, o, dg) in kept:
-            if canon(o) != dg:
+            if dig(o) != dg:
                 viol.append((f'alias:output-clobbered:{C["menu"][j][0]}', f'{where}: an earlier output of {C["menu"][j][0]} changed after calling {name}'))
-        kept = [(j, o, dg) for (j, o, dg) in kept if canon(o) == dg]
+        kept = [(j, o, dg) for (j, o, dg) in kept if dig(o) == dg]
         if len(kept) < 6:
             kept.append((i, out, got))
         obs.append(got)
@@ -230,7 +260,7 @@ def seq_case(case):
 
 def single_case(case):
     """one menu entry: repeat with the same seed -> identical; deterministic blocks -> identical for another seed"""
-    i, seeds = case
+    i, seeds, table = case
     C = setup()
     name, f, det, heavy = C['menu'][i]
     viol = []
@@ -240,10 +270,12 @@ def single_case(case):
         gv_reset(**GV)
         a = call(i, s)
         check_after(name, a, viol, f'solo {name}')
-        ca = canon(a)
-        cb = canon(call(i, s))
+        ca = dig(a)
+        cb = dig(call(i, s))
         if ca != cb:
             viol.append((f'nondeterminism:{name}', f'{name}: two calls after np.random.seed({s}) differ'))
+        if ca != table[(i, s)]:
+            viol.append((f'order-dependence:{name}', f'{name} (seed {s}) in a long-lived worker differs from the same call made first in a fresh interpreter: {str(table[(i, s)])[:200]}'))
         obs.append(ca)
     if det and len(set(obs)) > 1:
         viol.append((f'seed-dependence:{name}', f'deterministic block {name} gives different results for different numpy seeds'))
@@ -261,22 +293,29 @@ def run_part_b(ctx):
              f'whole menu and depth <= 3 (quick) / 4 on the cheapest entries (thorough) executed; oracle: each output == solo output '
              f'under the same numpy seed, gv snapshot and input bytes unchanged after every call, no output shares memory with an '
              f'input, earlier outputs never change (no output-output aliasing)')
-    pay = ctx.pmap('purity.single', single_case, [(i, seeds) for i in range(n)], horizon=120, chunk=1, recheck=0)
+    table = fresh_table(n, seeds)
+    ctx.extra['fresh_process_oracle'] = {'entries': n, 'seeds': seeds, 'distinct_digests': len(set(table.values()))}
+    pay = ctx.pmap('purity.single', single_case, [(i, seeds, table) for i in range(n)], horizon=120, chunk=1, recheck=0)
     costs = {p['name']: p['cost_ms'] for p in pay if p}
     ctx.extra['menu_cost_ms'] = costs
     ctx.extra['menu_seed_sensitive'] = sorted(p['name'] for p in pay if p and p['seed_sensitive'])
     # depth 2 over the whole menu: case = (a,), tail = all
     s0 = ctx.seed
-    cases = [((a,), s, tuple(range(n))) for a in range(n) for s in seeds]
-    ctx.pmap('purity.depth2', seq_case, cases, horizon=300, chunk=1, recheck=1)
+    cases = [((a,), s, tuple(range(n)), table) for a in range(n) for s in seeds]
+    ctx.pmap('purity.depth2', seq_case, cases, horizon=300, chunk=1, recheck=0)
     # depth 3 over cheap entries: case = (a,b), tail = cheap
-    cases = [((a, b), s0, tuple(cheap)) for a in cheap for b in cheap]
+    cases = [((a, b), s0, tuple(cheap), table) for a in cheap for b in cheap]
     nseq = len(cases) * len(cheap)
     if not ctx.quick:
         c16 = sorted(cheap, key=lambda i: costs.get(M[i][0], 1e9))[:16]
-        cases += [((a, b, c), s0, tuple(c16)) for a in c16 for b in c16 for c in c16]
+        cases += [((a, b, c), s0, tuple(c16), table) for a in c16 for b in c16 for c in c16]
         nseq += 16 ** 4
-    ctx.pmap('purity.depth3+', seq_case, cases, horizon=300, chunk=4, recheck=1)
+    ctx.pmap('purity.depth3+', seq_case, cases, horizon=300, chunk=4, recheck=0)
     ctx.extra['call_sequences'] = {'depth2': n * n * len(seeds), 'depth3plus': nseq}
     # as a state graph: one canonical state (gv snapshot, input digests) with a self-loop per executed call
     ctx.graph(states=1, transitions=ctx.stats.get('calls', 0))
+
+
+if __name__ == '__main__':
+    import sys
+    fresh_solo_main(sys.argv[1:])
